@@ -103,14 +103,29 @@ Theorem C03_unrepresentable_none_layer :
   (forall p, has_btle p = false -> ble_raw_from p = NoneR)
   /\ (forall p, has_data p = false -> ble_pdu_from p = NoneR)
   /\ (forall codec p, has_adv p = false -> ble_adv_from codec p = NoneR)
-  /\ (forall e p md, p_md p = Some md -> has_btle p = false -> ble_send_raw_from e p = NoneR)
-  /\ (forall e p md, p_md p = Some md -> has_data p = false -> has_ctrl p = false -> has_adv p = false -> ble_send_from e p = NoneR)
+  /\ (forall e p, has_btle p = false -> ble_send_raw_from e p = NoneR)
+  /\ (forall e p, has_data p = false -> has_ctrl p = false -> has_adv p = false -> ble_send_from e p = NoneR)
   /\ (forall p, has_d15 p = false -> d15_pdu_from p = NoneR)
   /\ (forall p, layer_eqb (p_top p) LDot15d4FCS || layer_eqb (p_top p) LDot15d4Raw = false -> d15_raw_from p = NoneR)
   /\ (forall ch p, has_d15 p || layer_eqb (p_top p) LDot15d4Raw = false -> d15_send_from ch p = NoneR)
   /\ (forall ch p, has_d15 p || layer_eqb (p_top p) LDot15d4Raw = false -> d15_send_raw_from ch p = NoneR)
   /\ (forall p md, p_md p = Some md -> md_cls md = MdOther -> hub_convert p = NoneR).
 Proof. exact from_without_layer. Qed.
+(** a packet without any metadata (every class that reads it), and hub.convert_packet of such a packet *)
+Theorem C03_unrepresentable_none_no_metadata : forall codec c kw p,
+  p_md p = None -> match c with CPhySend | CPhySendRaw | CD15Send | CD15SendRaw => false | _ => true end = true ->
+  from_packet_any codec c kw p = NoneR.
+Proof. exact from_without_metadata. Qed.
+Theorem C03_unrepresentable_none_no_metadata_hub : forall p, p_md p = None -> hub_convert p = NoneR.
+Proof. exact hub_convert_without_metadata. Qed.
+(** the channel (802.15.4, ESB, Unifying) or the frequency (PHY) is None in the metadata *)
+Theorem C03_unrepresentable_none_channel :
+  (forall p md, p_md p = Some md -> md_channel md = None -> d15_pdu_from p = NoneR /\ d15_raw_from p = NoneR)
+  /\ (forall f p md, p_md p = Some md -> md_channel md = None -> esb_rx_from f p = NoneR)
+  /\ (forall r p md, p_md p = Some md -> md_channel md = None -> esb_tx_from r p = NoneR)
+  /\ (forall p md, p_md p = Some md -> md_frequency md = None -> phy_rx1_from p = NoneR /\ phy_rx2_from p = NoneR)
+  /\ (forall p md, p_md p = Some md -> md_cls md = MdD15 -> md_channel md = None -> hub_convert p = NoneR).
+Proof. exact from_without_channel. Qed.
 (** a PDU scapy cannot dissect (struct.error); a raw 802.15.4 frame is kept as Dot15d4Raw instead *)
 Theorem C03_unrepresentable_none_undissectable : forall codec,
   (forall m, codec LBtleData (bs_pdu m) = CStruct -> ble_send_to codec m = NoneR)
@@ -126,56 +141,49 @@ Theorem C03_unrepresentable_none_undissectable : forall codec,
   /\ (forall m, in_u16 (dr_fcs m) = true -> codec LDot15d4FCS (dr_pdu m ++ le16z (dr_fcs m)) = CStruct ->
         exists p, d15_raw_to codec m = Ok p /\ p_top p = LDot15d4Raw /\ p_bytes p = dr_pdu m ++ le16z (dr_fcs m)).
 Proof. exact to_packet_undissectable. Qed.
+(** integers struct.pack rejects, PHY endian / modulation values outside their enum *)
 Theorem C03_unrepresentable_none_out_of_range : forall codec,
   (forall m, in_u32 (br_aa m) && in_u32 (br_crc m) = false -> ble_raw_to codec m = NoneR)
   /\ (forall m, in_u16 (dsr_fcs m) = false -> d15_send_raw_to codec m = NoneR)
-  /\ (forall m, in_u16 (dr_fcs m) = false -> d15_raw_to codec m = NoneR).
+  /\ (forall m, in_u16 (dr_fcs m) = false -> d15_raw_to codec m = NoneR)
+  /\ (forall raw m, (0 <=? pr_endian m) && (pr_endian m <=? 1) && ((0 <=? pr_modulation m) && (pr_modulation m <=? 7)) = false ->
+        phy_rx2_to raw m = NoneR).
 Proof. exact to_packet_out_of_range. Qed.
 
-(** * ... and never raises.  FULL STATEMENTS (refuted by the faithful model: known findings) *)
-Definition C03_from_packet_never_raises_statement : Prop :=
-  forall codec c kw p, raises (from_packet_any codec c kw p) = false.
+(** * ... and never raises: from_packet of every class, for EVERY packet, extra argument and codec;
+      hub.convert_packet for every packet *)
+Theorem C03_from_packet_never_raises : forall codec c kw p, raises (from_packet_any codec c kw p) = false.
+Proof. exact from_packet_never_raises. Qed.
+Theorem C03_convert_packet_never_raises : forall p, raises (hub_convert p) = false.
+Proof. exact hub_convert_never_raises. Qed.
+(** the inputs that used to raise (None channel / direction / frequency, no metadata, endian = 5) give None *)
+Theorem C03_metadata_none_regression :
+  from_packet_any codec_id CBlePdu kw_default (pkt_with LBtleData MdBle None) = NoneR
+  /\ from_packet_any codec_id CD15Pdu kw_default (pkt_with LDot15d4 MdD15 None) = NoneR
+  /\ hub_convert (pkt_with LDot15d4 MdD15 None) = NoneR
+  /\ from_packet_any codec_id CEsbPdu kw_default (pkt_with LEsbPayload MdEsb None) = NoneR
+  /\ from_packet_any codec_id CUniPdu kw_default {| p_top := LUniPayload; p_sub := LRaw; p_bytes := []; p_md := None |} = NoneR
+  /\ from_packet_any codec_id CPhyPkt1 kw_default (pkt_with LPhy MdPhy None) = NoneR
+  /\ phy_rx2_to false {| pr_frequency := 1; pr_packet := []; pr_rssi := None; pr_timestamp := None; pr_iq := [];
+                         pr_deviation := 0; pr_datarate := 0; pr_endian := 5; pr_modulation := 0; pr_syncword := [] |} = NoneR.
+Proof. exact metadata_none_witnesses. Qed.
+
+(** to_packet: FULL STATEMENT (refuted by SendRawPacket, known finding phy.send_raw-drops-packet-bytes,
+    see C03_convert_packet_send_phy_refuted) and the part that holds: every other class, whenever scapy
+    raises nothing but what dissect_failsafe catches (struct.error, ValueError) *)
 Definition C03_to_packet_never_raises_statement : Prop :=
   forall codec c b, codec_no_exc codec -> well_typed c b = true -> raises (to_packet_any codec c b) = false.
+Theorem C03_to_packet_never_raises_partial : forall codec c b,
+  codec_no_exc codec -> well_typed c b = true -> match c with CPhySendRaw => false | _ => true end = true ->
+  raises (to_packet_any codec c b) = false.
+Proof. exact to_packet_total. Qed.
+
+(** FULL STATEMENTS refuted by the two remaining findings *)
 Definition C03_uni_raw_from_to_statement : Prop :=
   forall codec m, wf_esb_rx codec LUniHdr m = true -> bind (esb_raw_to codec true m) (esb_rx_from true) = Ok m.
 Definition C03_convert_packet_send_phy_statement : Prop :=
   forall codec p md, p_md p = Some md -> md_cls md = MdPhy -> p_top p = LPhy ->
     exists s q, hub_convert p = Ok (SPhy s) /\ send_to_packet codec (SPhy s) = Ok q /\ p_bytes q = p_bytes p.
-
-(** a non-optional metadata item that is None (or a missing metadata object): TypeError / AttributeError
-    from the protobuf setter, one witness per domain *)
-Theorem C03_from_packet_never_raises_refuted_ble :
-  from_packet_any codec_id CBlePdu kw_default (pkt_with LBtleData MdBle None) = Raise TypeError.
-Proof. exact from_packet_raises_ble. Qed.
-Theorem C03_from_packet_never_raises_refuted_d15 :
-  from_packet_any codec_id CD15Pdu kw_default (pkt_with LDot15d4 MdD15 None) = Raise TypeError
-  /\ hub_convert (pkt_with LDot15d4 MdD15 None) = Raise TypeError.
-Proof. exact (conj from_packet_raises_d15 hub_convert_raises_d15). Qed.
-Theorem C03_from_packet_never_raises_refuted_esb :
-  from_packet_any codec_id CEsbPdu kw_default (pkt_with LEsbPayload MdEsb None) = Raise TypeError.
-Proof. exact from_packet_raises_esb. Qed.
-Theorem C03_from_packet_never_raises_refuted_uni :
-  from_packet_any codec_id CUniPdu kw_default {| p_top := LUniPayload; p_sub := LRaw; p_bytes := []; p_md := None |}
-  = Raise AttributeError.
-Proof. exact from_packet_raises_uni. Qed.
-Theorem C03_from_packet_never_raises_refuted_phy :
-  from_packet_any codec_id CPhyPkt1 kw_default (pkt_with LPhy MdPhy None) = Raise TypeError.
-Proof. exact from_packet_raises_phy. Qed.
-(** the part that holds: with a complete, in-range metadata object from_packet never raises, for
-    every class, every extra argument and every packet *)
-Theorem C03_from_packet_never_raises_partial : forall codec c kw p,
-  md_ok c kw p = true -> wf_bytes (p_bytes p) = true -> raises (from_packet_any codec c kw p) = false.
-Proof. exact from_packet_total. Qed.
-
-Theorem C03_to_packet_never_raises_refuted :
-  phy_rx2_to false {| pr_frequency := 1; pr_packet := []; pr_rssi := None; pr_timestamp := None; pr_iq := [];
-                      pr_deviation := 0; pr_datarate := 0; pr_endian := 5; pr_modulation := 0; pr_syncword := [] |}
-  = Raise ValueError.
-Proof. exact phy_enum_refuted. Qed.
-Theorem C03_to_packet_never_raises_partial : forall codec c b,
-  codec_no_exc codec -> well_typed c b = true -> phy_enum_ok c b = true -> raises (to_packet_any codec c b) = false.
-Proof. exact to_packet_total. Qed.
 
 Theorem C03_uni_raw_from_to_refuted :
   wf_esb_rx codec_id LUniHdr uni_55 = true
